@@ -1,9 +1,13 @@
 import Driver.TrVal
 import Driver.Entry
+import Driver.Secure
+import Driver.DelayedValidate
 
 def main (args : List String) : IO UInt32 := do
   let stdin ← IO.getStdin
   match args with
   | ["trval"] => TrVal.main stdin
   | ["entry"] => EntryVal.main stdin
+  | ["secure"] => SecureVal.main stdin
+  | ["delayed"] => DelayedVal.main stdin
   | _ => do IO.eprintln "usage: midriver <trval|entry|...>"; return 2
